@@ -545,10 +545,13 @@ thread_exit_cb(int t)
 // source hook (only compiled into the library with -DCPP_UTILITY_VERIF): accesses to the shared non-atomic
 // list-node fields inside GetProtectedEpochs
 extern "C" void
-cpp_utility_verif_point(const char *)
+cpp_utility_verif_point(const char *site)
 {
   if (X == nullptr || !vsched::active()) return;
-  if (X->c->walk_points) {
+  // sites outside the node walk (slot binding, coordinator scan) are ordinary scheduling points;
+  // the node-walk sites are inert unless the case asks for them (known finding KF-C17-WALK)
+  const bool walk = std::strncmp(site, "epoch.walk", 10) == 0 || std::strncmp(site, "epoch.lookup", 12) == 0;
+  if (!walk || X->c->walk_points) {
     vsched::harness_point();
   } else {
     X->out.excluded_known++;
